@@ -19,7 +19,7 @@ pub static DEF: CheckDef = CheckDef {
     variants: &["static-query", "dynamic-query", "static-mutation", "dynamic-mutation", "static-subscription", "dynamic-subscription"],
     run,
     quick_runs: 200_000,
-    thorough_runs: 20_000_000,
+    thorough_runs: 12_000_000,
     rule: "case = generated operation (depth<=4, <=18 fields, aliases, fragments, interface/union conditions, literal @skip/@include) over the harness type table (all wrappers of leaf and composite types, guarded fields, both static fallible idioms) + fault plan of 1-3 positions drawn from the positions resolved by a fault-free baseline run (resolver error, guard rejection; dynamic: invalid value, null for non-null, invalid list item) + a drawn schedule (latency profile, scheduling policy, event batching). Oracle: errors == exactly one (path, location) per failure that actually happened; data == baseline with null at the nearest nullable position at or above each failure. Non-trivial = at least one fault fired; distinct = distinct event-order hashes of the faulted execution.",
     real: &["async-graphql executor (static derive-generated and dynamic)", "parser", "validation", "futures-util joins"],
     stub: &["async runtime (simulator)", "resolvers, guards and subscription sources (harness, gated)"],
